@@ -168,25 +168,32 @@ func (r *Receiver) Next(ctx context.Context) (Announce, error) {
 // Close shuts down the Receiver.
 func (r *Receiver) Close() error {
 	r.announceMutex.Lock()
+	verifYield("c.locked")
 	if r.closed {
+		verifYield("c.unlock")
 		r.announceMutex.Unlock()
 		return nil
 	}
 	r.closed = true
 
 	if r.topicSub != nil {
+		verifYield("c.subcancel")
 		r.topicSub.Cancel()
 	}
 
+	verifYield("c.unlock")
 	r.announceMutex.Unlock()
 
 	// Tell Next to stop waiting.
+	verifYield("c.predone")
 	close(r.done)
 
 	// Cancel watch and wait for pubsub watch to exit.
 	if r.cancelWatch != nil {
+		verifYield("c.precancel")
 		r.cancelWatch()
 		<-r.watchDone
+		verifYield("c.watchdone")
 	}
 
 	var err error
@@ -208,7 +215,9 @@ func (r *Receiver) Close() error {
 // UncacheCid removes a CID from the announce cache.
 func (r *Receiver) UncacheCid(adCid cid.Cid) {
 	r.announceMutex.Lock()
+	verifYield("u.locked")
 	r.announceCache.remove(adCid.String())
+	verifYield("u.unlock")
 	r.announceMutex.Unlock()
 }
 
@@ -221,6 +230,7 @@ func (r *Receiver) TopicName() string {
 // to a channel.
 func (r *Receiver) watch(ctx context.Context) {
 	for {
+		verifYield("w.next")
 		msg, err := r.topicSub.Next(ctx)
 		if err != nil {
 			if errors.Is(err, context.Canceled) || errors.Is(err, pubsub.ErrSubscriptionCancelled) {
@@ -230,8 +240,10 @@ func (r *Receiver) watch(ctx context.Context) {
 			log.Errorw("Error reading from pubsub", "err", err)
 			// Restart subscription.
 			r.announceMutex.Lock()
+			verifYield("w.relocked")
 			r.topicSub.Cancel()
 			r.topicSub, err = r.topic.Subscribe()
+			verifYield("w.reunlock")
 			r.announceMutex.Unlock()
 			if err != nil {
 				log.Errorw("Cannot restart subscription", "err", err, "topic", r.TopicName())
@@ -239,6 +251,7 @@ func (r *Receiver) watch(ctx context.Context) {
 			}
 			continue
 		}
+		verifYield("w.msg")
 
 		srcPeer, err := peer.IDFromBytes(msg.From)
 		if err != nil {
@@ -297,6 +310,7 @@ func (r *Receiver) watch(ctx context.Context) {
 		}
 	}
 
+	verifYield("w.exit")
 	close(r.watchDone)
 }
 
@@ -341,6 +355,7 @@ func (r *Receiver) handleAnnounce(ctx context.Context, amsg Announce, resend boo
 		}
 	}
 
+	verifYield("h.send")
 	select {
 	case r.outChan <- amsg:
 	case <-r.done:
@@ -360,6 +375,8 @@ func (r *Receiver) announceCheck(amsg Announce) error {
 
 	r.announceMutex.Lock()
 	defer r.announceMutex.Unlock()
+	verifYield("a.locked")
+	defer verifYield("a.unlock")
 
 	if r.closed {
 		return ErrClosed
